@@ -425,8 +425,12 @@ class YieldChecker:
         )
         second_yield = YieldInfo(second_node, second_parent, lines)
 
-        assert first_yield.yield_node.value is not None, repr(first_yield)
-        assert second_yield.yield_node.value is not None, repr(second_yield)
+        # a bare "yield" has no value that could be batched with the other yield
+        if (
+            first_yield.yield_node.value is None
+            or second_yield.yield_node.value is None
+        ):
+            return None
 
         # check whether there is any code between the two yield statements
         lines_in_between = list(
